@@ -1,6 +1,7 @@
 package main
 
 import (
+	"runtime"
 	"crypto/sha256"
 	"encoding/hex"
 	"context"
@@ -44,7 +45,19 @@ func runSolver(s solverSpec, file string, timeout int) (verdict, out string, sec
 
 // cpuSlots bounds the number of solver processes running at once (one per core), so that racing
 // several solvers on one obligation never starves the others of the CPU time their limit assumes.
-var cpuSlots = make(chan struct{}, 16)
+var cpuSlots = make(chan struct{}, numWorkers())
+
+// numWorkers: one solver process per core, at most 16.
+func numWorkers() int {
+	n := runtime.NumCPU()
+	if n > 16 {
+		n = 16
+	}
+	if n < 2 {
+		n = 2
+	}
+	return n
+}
 
 func runSolverCtx(parent context.Context, s solverSpec, file string, timeout int) (verdict, out string, secs float64) {
 	select {
@@ -279,4 +292,31 @@ func solveAll(obls []*Obligation, dir string, timeout int, all bool, workers int
 	}
 	close(ch)
 	wg.Wait()
+	// second chance: an obligation that ran out of time while the machine was saturated is tried again
+	// on a quiet machine (two at a time, all solvers racing) with twice the limit. Only a definite
+	// answer ends the matter; "sat" answers are never retried.
+	var late []*Obligation
+	for _, o := range obls {
+		if o.Result != nil && o.Kind != "cover" && (o.Result.Verdict == "timeout" || o.Result.Verdict == "unknown") {
+			late = append(late, o)
+		}
+	}
+	if len(late) > 0 && len(late) <= 40 {
+		sem := make(chan struct{}, 2)
+		var wg2 sync.WaitGroup
+		for _, o := range late {
+			wg2.Add(1)
+			sem <- struct{}{}
+			go func(o *Obligation) {
+				defer wg2.Done()
+				defer func() { <-sem }()
+				first := o.Result
+				r := solve(o, dir, 2*timeout, all, true)
+				r.Tried = append(append([]string{"first attempt: " + first.Verdict}, first.Tried...), r.Tried...)
+				r.Total += first.Total
+				o.Result = r
+			}(o)
+		}
+		wg2.Wait()
+	}
 }
